@@ -208,6 +208,36 @@ func registerEnv(vm *VM) {
 		vm.emit("stdout", vm.sprintf(a[0], a[1].(Slice)))
 		return Tuple{int64(0), Iface{}}
 	}
+	// fmt.Fprint* to the process streams (any other writer is not modelled)
+	wkind := func(vm *VM, w Value) string {
+		ifc, ok := w.(Iface)
+		if !ok || ifc.T == nil {
+			vmErr("fmt.Fprint* to a nil writer")
+		}
+		return vm.fileKind(ifc.V)
+	}
+	I["fmt.Fprint"] = func(vm *VM, _ *frame, a []Value) Value {
+		k := wkind(vm, a[0])
+		for _, x := range a[1].(Slice) {
+			vm.emit(k, vm.fmtValue('v', x))
+		}
+		return Tuple{int64(0), Iface{}}
+	}
+	I["fmt.Fprintln"] = func(vm *VM, _ *frame, a []Value) Value {
+		k := wkind(vm, a[0])
+		for i, x := range a[1].(Slice) {
+			if i > 0 {
+				vm.emit(k, " ")
+			}
+			vm.emit(k, vm.fmtValue('v', x))
+		}
+		vm.emit(k, "\n")
+		return Tuple{int64(0), Iface{}}
+	}
+	I["fmt.Fprintf"] = func(vm *VM, _ *frame, a []Value) Value {
+		vm.emit(wkind(vm, a[0]), vm.sprintf(a[1], a[2].(Slice)))
+		return Tuple{int64(0), Iface{}}
+	}
 	I["os.ReadFile"] = func(vm *VM, _ *frame, a []Value) Value {
 		path, ok := a[0].(string)
 		if !ok {
